@@ -53,7 +53,7 @@ def race_reports(ms, clients):
     reports = []
     for blk in err.split("WARNING: DATA RACE")[1:]:
         blk = blk.split("==================")[0]
-        lines = _re.findall(r"/repo/([\w/\.]+\.go):(\d+)", blk)
+        lines = _re.findall(_re.escape(REPO.rstrip("/")) + r"/([\w/\.]+\.go):(\d+)", blk)
         own = [(f, int(l)) for f, l in lines if not f.startswith("test/")]
         reports.append({"lines": own[:6], "text": blk[:1800]})
     return calls, reports, rc
